@@ -270,7 +270,10 @@ def st_cksum_purl(ctx, n, label="cksum-purl"):
             out.append(case("parse %s %s" % (sh, hx(s)), "cksum-purl", s=s, canon=canon))
         else:
             tyt = hx("t") if sh != "P" else "Cargo"
-            out.append(case("build %s %s %s q:%s:%s" % (sh, tyt, hx("n"), hx(key), hx(spelled)), "cksum-purl", s=spelled, canon=canon))
+            pre = r.pick(["", "", "q:%s:%s;" % (hx("arch"), hx("")), "q:%s:%s;q:%s:%s;" % (hx("a"), hx(""), hx("b"), hx("1")), "q:%s:%s;" % (hx("Arch"), hx("x86"))])
+            post = r.pick(["", "", ";q:%s:%s" % (hx("vcs_url"), hx("git+https://example.com/r.git")), ";q:%s:%s" % (hx("zz"), hx("")),
+                           ";q:%s:%s;pq:trunc.%s.t" % (hx("download_url"), hx(LONGV), hx("download_url"))])
+            out.append(case("build %s %s %s %sq:%s:%s%s" % (sh, tyt, hx("n"), pre, hx(key), hx(spelled), post), "cksum-purl", s=spelled, canon=canon))
     return out
 
 
@@ -311,6 +314,12 @@ def gen_C15(ctx):
     out += st_ptype_near(ctx, ctx.n(4000, 500000), "c15-near")
     out += st_ptype_short(3 if ctx.tier == "quick" else 5)
     out += st_ptype_escaped()
+    # a known name with what usually surrounds it in a PURL or a file: only the bare name is the type
+    for name in KNOWN_TYPES:
+        for nm in (name, name.upper(), name.capitalize()):
+            for pre, post in (("pkg:", ""), ("pkg:/", ""), ("pkg://", ""), ("PKG:", ""), ("", "/"), ("pkg:", "/"), ("", "@1"), ("", ":"), ("type:", ""), ("purl:", ""),
+                              ("", "/name"), ("pkg:", "/name@1.0"), ("", "?"), ("", "#"), ("/", ""), ("", "\n"), ("\ufeff", ""), ("", "\0"), ("\"", "\""), ("", ".")):
+                out.append(case("ptype " + hx(pre + nm + post), "ptype-affix"))
     # the type string used IN a PURL: every case variant of every name, parsed typed; and the serde form of the type
     for c in st_ptype_exhaustive():
         s_ = "pkg:%s/ns/name@1.0" % c["s"]
